@@ -503,7 +503,12 @@ def exotic_field_values(rec):
     if r[0] != 'ok':
         return
     g = r[1]
+    import collections
+    NT = collections.namedtuple('NT', 'a b')
     groups = [
+        [NT(1, 2), (1, 2), NT(1.0, 2)],
+        [NT({1}, 'x'), ({1}, 'x'), (frozenset({1}), 'x')],
+        [[NT(1, 2)], [(1, 2)]],
         [{1, 2}, frozenset({1, 2}), {2, 1}],
         [bytearray(b'xy'), b'xy', bytearray(b'xy')],
         [[{1}, 'a'], [frozenset({1}), 'a']],
